@@ -188,8 +188,13 @@ def gen_layered(rng, optics, nlayers=None, xmax=15.0, center=None, zrange=(5.0, 
             "r": [float(v / k) for v in xs], "c": c}
 
 
-def gen_cluster(rng, optics, nsph, xmax=6.0, xmin=0.5, zc=None, gap=(0.05, 1.5), absorbing=False, extent=2.0):
-    """non-overlapping spheres placed by rejection around a centre"""
+_AXES = [(1.0, 0.0, 0.0), (-1.0, 0.0, 0.0), (0.0, 1.0, 0.0), (0.0, -1.0, 0.0), (0.0, 0.0, 1.0), (0.0, 0.0, -1.0)]
+
+
+def gen_cluster(rng, optics, nsph, xmax=6.0, xmin=0.5, zc=None, gap=(0.05, 1.5), absorbing=False, extent=2.0, axis_prob=0.25):
+    """non-overlapping spheres placed by rejection around a centre; every fourth cluster is built along the coordinate axes (a dimer
+    along x, an L, a chain along z: neighbours then share coordinates EXACTLY, as hand-written configurations do)"""
+    on_axes = rng.random() < axis_prob
     k = kmed(optics)
     members = []
     c0 = np.array([rng.uniform(0.3, extent), rng.uniform(0.3, extent), zc if zc is not None else rng.uniform(8, 25)])
@@ -203,6 +208,8 @@ def gen_cluster(rng, optics, nsph, xmax=6.0, xmin=0.5, zc=None, gap=(0.05, 1.5),
             base = members[int(rng.integers(0, len(members)))]
             u = rng.normal(size=3)
             u /= np.linalg.norm(u)
+            if on_axes:
+                u = np.array(_AXES[int(rng.integers(0, 4 if zc is not None else 6))])
             c = np.array(base["c"]) + u * (base["r"] + r) * (1 + float(rng.uniform(*gap)))
         if all(np.linalg.norm(c - np.array(m["c"])) > (m["r"] + r) * 1.02 for m in members):
             members.append({"t": "sphere", "n": gen_index(rng, optics, absorbing=absorbing and rng.random() < 0.3), "r": r, "c": [float(v) for v in c]})
